@@ -33,7 +33,7 @@ ASSUMPTIONS = [
     "loop (what asyncio code can observe); OS thread preemption is out of scope",
     "sequential consistency as the property states it (each session's own order), not real-time order across sessions",
     "flags modulo \\Recent; messages identified by X-VF-Tag (FETCH always asks for it); unsolicited-notification timing is not compared",
-    "a non-UID FETCH/STORE/SEARCH may be refused (NO) when the issuing session has undelivered EXPUNGEs at its linearization point",
+    "a non-UID FETCH/STORE/SEARCH may be refused (NO) when the issuing session has undelivered EXPUNGEs at its linearization point; NOOP/STATUS/APPEND deliver the queue when they START, so an EXPUNGE linearized between the session's previous command and such a command may or may not have been delivered by it (both accepted)",
 ]
 OPEN = open_ids(ID)
 
@@ -71,6 +71,29 @@ def strategy(tier, shard, nshards):
     liveness = shard % 4 == 3
     nsess = st.integers(2, 3)
     mx = 3 if tier == "quick" else 3
+
+    # a focused shape inside the same domain: three sessions on one mailbox, two FETCHes already running -
+    # the older one does not touch the messages of the third session's STORE, the younger one does
+    # (seeded/C10-3: the admission test looked only at the first running command)
+    @st.composite
+    def three_way(draw):
+        box = draw(st.integers(0, 1))
+        lone = draw(st.integers(0, 7))
+        shared = draw(st.lists(st.integers(0, 7), min_size=2, max_size=3, unique=True))
+        f1 = {"c": "fetch", "uid": draw(st.booleans()), "set": [lone], "peek": True}
+        f2 = {"c": "fetch", "uid": draw(st.booleans()), "set": shared, "peek": draw(st.booleans())}
+        stc = {"c": "store", "uid": draw(st.booleans()), "set": shared, "act": draw(st.integers(0, 2)), "flags": [draw(st.integers(0, 5))], "silent": draw(st.booleans())}
+        extra = draw(st.lists(cmd_strategy(False), max_size=1))
+        return {
+            "rseed": draw(st.integers(0, 2**16)), "profile": "linear", "sel": [box, box, box],
+            "offsets": [0, draw(st.integers(0, 2)), draw(st.integers(1, 3))],
+            "sessions": [[f1] + extra, [f2], [stc]],
+            "sched": draw(st.lists(st.integers(0, 4), min_size=0, max_size=64)),
+            "slow": True,
+        }
+
+    if not liveness and shard % 4 == 1:
+        return three_way()
     return st.fixed_dictionaries(
         {
             "rseed": st.integers(0, 2**16),
@@ -79,6 +102,7 @@ def strategy(tier, shard, nshards):
             "offsets": st.lists(st.integers(0, 3), min_size=3, max_size=3),
             "sessions": st.lists(st.lists(cmd_strategy(liveness), min_size=1, max_size=mx), min_size=2, max_size=3),
             "sched": st.lists(st.integers(0, 4), min_size=0, max_size=64),
+            "slow": st.booleans(),
         }
     )
 
@@ -104,7 +128,10 @@ class M:
                 self.nmid += 1
                 self.boxes[k].append([self.nmid, t, set(f), True])
         self.sel = dict(sel)  # session -> box name
-        self.pending = {s: False for s in sel}
+        # undelivered EXPUNGEs of other sessions: "" none, "new" = expunged after this session's last
+        # command (certainly undelivered), "maybe" = expunged before a command of this session that
+        # delivers its queue when it STARTS, i.e. possibly only after that point
+        self.pending = {s: "" for s in sel}
         self.moving = set()
         self.ctx = {}
 
@@ -122,7 +149,13 @@ class M:
         for s, b in self.sel.items():
             # a session inside the expunge phase of its own MOVE receives EXPUNGEs at once
             if s != by and b == box and s not in self.moving:
-                self.pending[s] = True
+                self.pending[s] = "new"
+
+    def start_flush(self, s):
+        """A command that sends the session's queue when it starts (NOOP, STATUS, APPEND): what was
+        expunged before the session's previous command is delivered for sure; what was expunged since
+        may have come after the command had started."""
+        self.pending[s] = "maybe" if self.pending[s] == "new" else ""
 
 
 def eff(flags):
@@ -153,13 +186,15 @@ def apply_atom(m: M, atom):
         return out
 
     if c in ("fetch", "store") and not cmd.get("uid") and m.pending[s]:
-        return ("NO",)
+        if m.pending[s] == "new" or atom.get("_observed_refused"):
+            return ("NO",)
+        m.pending[s] = ""  # it was delivered after all
     if c == "fetch":
         t = targets()
         if t is None:
             return ("BAD",)
         if cmd.get("uid"):
-            m.pending[s] = False
+            m.pending[s] = ""
         # the FETCH response carries the flags as they are when the message is
         # fetched; the implicit \\Seen of a non-PEEK fetch is applied afterwards
         # (and announced by a separate untagged FETCH, which is not compared)
@@ -173,7 +208,7 @@ def apply_atom(m: M, atom):
         if t is None:
             return ("BAD",)
         if cmd.get("uid"):
-            m.pending[s] = False
+            m.pending[s] = ""
         fl = set(cmd["_flags"])
         for x in t:
             if cmd["act"] % 3 == 0:
@@ -192,7 +227,7 @@ def apply_atom(m: M, atom):
             "UNDELETED": lambda f: "\\Deleted" not in f, "FLAGGED": lambda f: "\\Flagged" in f, "KEYWORD kw1": lambda f: "kw1" in f,
             "UNKEYWORD kw2": lambda f: "kw2" not in f, "ANSWERED": lambda f: "\\Answered" in f,
         }[key]
-        m.pending[s] = False  # UID SEARCH delivers pending notifications first
+        m.pending[s] = ""  # UID SEARCH delivers pending notifications first
         return ("OK", tuple(sorted(x[1] for x in lst if pred(x[2]))))
     if c == "copy":
         dst = BOXES[1 - BOXES.index(box)]
@@ -204,10 +239,10 @@ def apply_atom(m: M, atom):
                 # after its pending notifications were delivered (numbers then out of range)
                 m.ctx[key] = None
                 if atom.get("_refuse_mode") == "flushed":
-                    m.pending[s] = False
+                    m.pending[s] = ""
                 return ("NO",)
             t = targets()
-            m.pending[s] = False
+            m.pending[s] = ""
             if t is None:
                 m.ctx[key] = None
                 return ("BAD",)
@@ -224,7 +259,7 @@ def apply_atom(m: M, atom):
                 return ("OK", tuple(tag for _, tag, _ in got))
             # MOVE: queued notifications are delivered before the expunge phase, during which
             # (including the wait for it) EXPUNGEs reach the mover at once
-            m.pending[s] = False
+            m.pending[s] = ""
             m.moving.add(s)
             return None
         # k == 2: remove from the source (MOVE)
@@ -237,12 +272,12 @@ def apply_atom(m: M, atom):
         return ("OK", tuple(tag for _, tag, _ in got))
     if c == "append":
         b = BOXES[cmd["box"] % 2]
-        m.pending[s] = False
+        m.start_flush(s)
         m.nmid += 1
         m.boxes[b].append([m.nmid, cmd["_tag"], set(cmd["_flags"]), False])
         return ("OK",)
     if c in ("expunge", "uidexpunge"):
-        m.pending[s] = False
+        m.pending[s] = ""
         if c == "uidexpunge":
             named = {x[0] for x in targets()}
             victims = {x[0] for x in lst if "\\Deleted" in x[2] and x[0] in named}
@@ -253,11 +288,11 @@ def apply_atom(m: M, atom):
             m.removed_from(box, s)
         return ("OK",)
     if c == "noop":
-        m.pending[s] = False
+        m.start_flush(s)
         return ("OK",)
     if c == "status":
         b = BOXES[cmd["box"] % 2]
-        m.pending[s] = False
+        m.start_flush(s)
         return ("OK", len(m.boxes[b]))
     return ("?",)
 
@@ -553,6 +588,10 @@ def execute(trace) -> CaseResult:
         sessions = {n: [prepare(n, i, c) for i, c in enumerate(cmds)] for n, cmds in zip(names, trace["sessions"])}
         state["cmds"] = sessions
         w.loop.sched = sched  # from here on every DB completion / executor job takes a generated latency
+        if trace.get("slow"):
+            # ... and so does every drain of a client's connection (clients that read slowly)
+            for n_ in names:
+                state["sess"][n_][0].writer.slow = sched.next
         tasks = [asyncio.ensure_future(run_session(n, sessions[n], trace["offsets"][i])) for i, n in enumerate(names)]
         done, pending = await asyncio.wait(tasks, timeout=400)
         if pending:
